@@ -8,7 +8,9 @@ mod flow;
 mod gitrepo;
 mod order;
 mod pep440;
+mod pipe;
 mod render;
+mod ron;
 mod sanitizer;
 mod semver;
 mod wire;
@@ -34,6 +36,10 @@ fn main() {
         ("record", "gitrepo") => gitrepo::record(rest),
         ("replay", "flow") => flow::replay(rest),
         ("record", "flow") => flow::record(rest),
+        ("replay", "pipe") => pipe::replay(rest),
+        ("record", "pipe") => pipe::record(rest),
+        ("replay", "schema") => ron::replay_schema(rest),
+        ("record", "ron") => ron::record(rest),
         ("replay", "render") => render::replay(rest),
         ("record", "render") => render::record(rest),
         ("replay", "zerv") => zmodel::replay(rest),
